@@ -290,5 +290,10 @@ def run(ctx):
     run_r2(ctx, r2)
     r3 = ctx.rule("C10-R3", "look-ahead stays within one line: no second line end is looked at before the cursor moved past the first", floor=60)
     run_r3(ctx, r3)
+    # R4: no allocation is sized by a number the input merely declares (the rule of C05-R5, run here too: a
+    # reserved-but-never-filled buffer is exactly the memory that does not depend on the data actually read)
+    from . import c05, taint as T
+    r4 = ctx.rule("C10-R4", "no allocation or reservation is sized by a number the input merely declares (shared with C05-R5)", floor=1)
+    c05.run_r5(ctx, r4, T.Taint(ctx.facts))
     ctx.assume("peak heap, allocator behaviour and the constants of the bound are not decided")
     return "other", "necessary structural conditions for bounded streaming memory: buffer reset discipline, reachable and complete compaction, look-ahead bounded by a line", {}
